@@ -13,26 +13,42 @@ def price_guards(price_field, v):
             ('price-not-negative', ('val', ('is_neg', d), False)),
             ('price-within-precision', ('val', EQ(('fract', MUL(d, POW10(F(CFG, 'price_precision')))), I(0)), True))]
 
+def _is_member(ret, item):
+    """ret (a closure result over the bound `item`) says: item is the name of one of the sender's attributes.
+    Spellings: names.contains(item) with names = collect(map(iter(sender attributes), |a| a.name));
+               iter(sender attributes).any(|a| a.name == item)"""
+    src = F(V(('attr_query', SENDER), 'Ok'), 'attributes')
+    if ret[0] == 'contains' and ret[2] == item:
+        names = ret[1]
+        if names[0] == 'collect' and names[1][0] == 'call' and names[1][1].endswith('::map') and names[1][2][0] == ('iter', src):
+            l2 = names[1][2][1]
+            return l2[0] == 'lambda' and len(l2[3]) == 1 and not l2[3][0][0] and l2[3][0][1][0] == 'f' and l2[3][0][1][2] == 'name' and l2[3][0][1][1][0] == 'bound'
+        return False
+    if ret[0] == 'call' and ret[1].endswith('::any') and len(ret[2]) == 2 and ret[2][0] == ('iter', src) and ret[2][1][0] == 'lambda':
+        l2 = ret[2][1]
+        if len(l2[3]) != 1 or l2[3][0][0]: return False
+        r2 = l2[3][0][1]; b2 = ('bound', l2[1], 0)
+        return r2[0] == 'eq' and set(r2[1:]) == {item, F(b2, 'name')}
+    return False
+
 def attrs_ok(p, listfield):
-    """required attributes: list empty, or attribute query of the sender succeeded and any(required, |x| !names.contains(x)) is false"""
+    """required attributes: list empty, or the attribute query of the sender succeeded and every required name is among the sender's
+    attribute names -- as `any(required, |x| !member(x)) == false` or `all(required, |x| member(x)) == true`"""
     L = F(CFG, listfield)
     if p.holds(ISEMPTY(L), True) is not None: return True, 'empty'
     if p.pos(('is', ('attr_query', SENDER), 'Ok')) is None: return False, 'no successful attribute query of the sender'
+    why = 'no any(required, ..) == false / all(required, ..) == true fact'
     for f, _, _ in p.facts:
-        if f[0] == 'val' and f[2] is False and f[1][0] == 'call' and f[1][1].endswith('::any') and f[1][2][0] == ('iter', L):
-            lam = f[1][2][1]
-            if lam[0] != 'lambda' or len(lam[3]) != 1: return False, 'closure of any() has several outcomes'
-            facts, ret = lam[3][0]
-            if facts: return False, 'closure of any() branches'
-            if ret[0] == 'not' and ret[1][0] == 'contains' and ret[1][2][0] == 'bound':
-                names = ret[1][1]
-                src = F(V(('attr_query', SENDER), 'Ok'), 'attributes')
-                if names[0] == 'collect' and names[1][0] == 'call' and names[1][1].endswith('::map') and names[1][2][0] == ('iter', src):
-                    l2 = names[1][2][1]
-                    if l2[0] == 'lambda' and len(l2[3]) == 1 and l2[3][0][1][0] == 'f' and l2[3][0][1][2] == 'name' and l2[3][0][1][1][0] == 'bound':
-                        return True, 'checked'
-            return False, 'closure of any() is not |item| !names_of(sender attributes).contains(item)'
-    return False, 'no any(required, ..) == false fact'
+        if not (f[0] == 'val' and isinstance(f[2], bool) and f[1][0] == 'call' and len(f[1][2]) == 2 and f[1][2][0] == ('iter', L)): continue
+        kind = 'any' if f[1][1].endswith('::any') else ('all' if f[1][1].endswith('::all') else None)
+        if kind is None or f[2] is not (kind == 'all'): continue
+        lam = f[1][2][1]
+        if lam[0] != 'lambda' or len(lam[3]) != 1 or lam[3][0][0]: why = 'the closure of %s() branches' % kind; continue
+        ret = lam[3][0][1]; item = ('bound', lam[1], 0)
+        if kind == 'any' and ret[0] == 'not' and _is_member(ret[1], item): return True, 'checked'
+        if kind == 'all' and _is_member(ret, item): return True, 'checked'
+        why = 'the closure of %s() does not test membership of the item among the names of the sender\'s attributes' % kind
+    return False, why
 
 def funds_rule(eng, p, v, denom, amount, dom, save_pos, PROP=PROP):
     """exact funds: unrestricted -> FUNDS == coins(amount, denom), no message; restricted -> FUNDS empty and one pull of amount"""
@@ -194,7 +210,8 @@ def refusal_tables(v):
         ('price-negative', 'L', lambda e: isf(e, ('val', ('is_neg', d), True))),
         ('price-too-precise', 'L', lambda e: isf(e, ('val', EQ(('fract', MUL(d, POW10(F(CFG, 'price_precision')))), I(0)), False))),
         ('attribute-query-fails', 'L', lambda e: isf(e, ('is', ('attr_query', SENDER), 'Err'))),
-        ('attribute-missing', 'L', lambda e: e['fact'] is not None and e['fact'][0] == 'val' and e['fact'][2] is True and e['fact'][1][0] == 'call' and e['fact'][1][1].endswith('::any') and e['fact'][1][2][0] == ('iter', F(CFG, req))),
+        ('attribute-missing', 'L', lambda e: e['fact'] is not None and e['fact'][0] == 'val' and e['fact'][1][0] == 'call' and len(e['fact'][1][2]) == 2 and e['fact'][1][2][0] == ('iter', F(CFG, req))
+             and ((e['fact'][1][1].endswith('::any') and e['fact'][2] is True) or (e['fact'][1][1].endswith('::all') and e['fact'][2] is False))),
         ('id-already-on-book', 'L', lambda e: isf(e, ('is', ('mayload_opt', side, M(v, 'id'), 0), 'Some'))),
         ('storage', 'I', lambda e: is_save_err(e['fact']) or is_storage_load_err(e['fact'], side)),
         ('funds-attached-for-restricted', 'L', lambda e: isf(e, ('val', ISEMPTY(FUNDS), False))),
